@@ -163,6 +163,10 @@ pub fn run(args: &[String]) {
                 (vec![("O".into(), 0, 30), ("C".into(), 0, 1)], Req::I32(25), 1),
                 (vec![("K".into(), 0, 20), ("C".into(), 0, 300)], Req::F32(0.99), 3),
                 (vec![("N".into(), 0, 4), ("C".into(), 0, 34), ("H".into(), 0, 53), ("O".into(), 0, 15)], Req::I32(8), 2),
+                // elements with long isotope ladders: their initial tables are longer than a small request needs
+                (vec![("C".into(), 0, 5), ("H".into(), 0, 11), ("N".into(), 0, 1), ("O".into(), 0, 2), ("Se".into(), 0, 1)], Req::I32(3), 1),
+                (vec![("C".into(), 0, 10), ("H".into(), 0, 20), ("N".into(), 0, 2), ("O".into(), 0, 4), ("Se".into(), 0, 2)], Req::I32(12), 2),
+                (vec![("Sn".into(), 0, 2), ("C".into(), 0, 4)], Req::I32(2), 1),
             ];
             let stateless: Vec<Value> = pool.iter().map(|(e, r, z)| {
                 let c = build(e, false);
